@@ -44,6 +44,12 @@ func buildOne(tbl routing.Config, f *Filter) (c *restful.Container, w *world, er
 	c.Filter(func(req *restful.Request, resp *restful.Response, chain *restful.FilterChain) {
 		w.log = append(w.log, "pre")
 		chain.ProcessFilter(req, resp)
+		if req.Request.Header.Get(retryHeader) != "" {
+			// a retrying filter: the second call continues where the chain stands (every filter behind this
+			// one has run, so it reaches the route function directly); no filter runs twice
+			w.log = append(w.log, "retry")
+			chain.ProcessFilter(req, resp)
+		}
 	})
 	if f != nil {
 		cors := restful.CrossOriginResourceSharing{
@@ -88,6 +94,11 @@ func buildOne(tbl routing.Config, f *Filter) (c *restful.Container, w *world, er
 			b := routing.RouteBuilder(ws, s, r)
 			b.To(func(req *restful.Request, resp *restful.Response) {
 				w.log = append(w.log, fmt.Sprintf("h:%d:%d", s.ID, r.ID))
+				if req.Request.Header.Get(retryHeader) != "" && req.Attribute("attempt") == nil {
+					// the first attempt of a retried request gives up without committing the response
+					req.SetAttribute("attempt", 1)
+					return
+				}
 				resp.AddHeader("X-Handler", fmt.Sprintf("%d", r.ID))
 				if r.ID%3 == 0 {
 					resp.AddHeader("X-Handler", "again") // a multi-valued header from user code
@@ -119,9 +130,14 @@ func Build(tbl routing.Config, f Filter) (*Pair, error) {
 	return &Pair{Real: rc, Twin: tc, realW: rw, twinW: tw}, nil
 }
 
+const retryHeader = "X-Verif-Retry"
+
 // HTTPRequest builds the request by hand (arbitrary path bytes, header lines as given).
 func HTTPRequest(r Req) *http.Request {
 	hr := routing.HTTPRequest(r.R)
+	if r.Retry {
+		hr.Header.Set(retryHeader, "1")
+	}
 	for _, v := range r.Origin {
 		hr.Header.Add("Origin", v)
 	}
